@@ -3,7 +3,7 @@
 import ast
 
 from py2lean_types import (Unsupported, Impure, TInt, TBool, TStr, TNone, TRange, TErased, TList, TOpt, TTuple,
-                           TDict, TObj, TAbs, TExc, TUnion, TVar, INT, BOOL, STR, NONE, RANGE, ERASED,
+                           TDict, TObj, TAbs, TExc, TUnion, TVar, TMaybe, INT, BOOL, STR, NONE, RANGE, ERASED,
                            resolve, unify, join, coerce, proj, iter_elem)
 from py2lean_expr import src, indent, EXC, TyRef
 
@@ -319,19 +319,28 @@ class StmtMixin:
         if len(falls) == 1:
             key, env_b = falls[0]
             return splice(code, key, nxt(env_b))
-        # joined variables: defined at every fall-through point
-        names = [n for n in names if all(n in e for _, e in falls)]
+        # joined variables: defined at every fall-through point; a variable assigned on some paths only is "maybe bound"
+        maybe = [n for n in names if n not in env and any(n in e for _, e in falls) and not all(n in e for _, e in falls)]
+        names = [n for n in names if all(n in e for _, e in falls)] + maybe
         tys = []
         for n in names:
-            t = falls[0][1][n][1]
-            for _, e in falls[1:]:
-                t = join(t, e[n][1])
+            t = None
+            for _, e in falls:
+                if n not in e:
+                    continue
+                t = e[n][1] if t is None else join(t, e[n][1])
                 if t is None:
                     raise Unsupported("variable {} has incompatible types on two paths".format(n))
-            tys.append(t)
+            tys.append(TMaybe(t) if n in maybe and not isinstance(resolve(t), TMaybe) else t)
         keep = [(n, t) for n, t in zip(names, tys) if not isinstance(resolve(t), TErased)]
+        def at(env_b, n, t):
+            if isinstance(resolve(t), TMaybe):
+                if n in env_b:
+                    return coerce(env_b[n][0], env_b[n][1], t)
+                return "(none : {})".format(resolve(t).lean())
+            return coerce(env_b[n][0], env_b[n][1], t)
         for key, env_b in falls:
-            tup = tuple_code([coerce(env_b[n][0], env_b[n][1], t) for n, t in keep])
+            tup = tuple_code([at(env_b, n, t) for n, t in keep])
             code = code.replace(key, "Except.ok {}".format(tup) if monadic_join else tup)
         env2 = dict(env)
         st = self.lname(keep[0][0]) if len(keep) == 1 else self.fresh("st")
@@ -463,11 +472,26 @@ class StmtMixin:
 
     # ------------------------------------------------------------ try (one idiom)
     def s_Try(self, s, env, nxt):
-        """try: <abstract call> except K: raise E  — the outcome of the abstract call is an input"""
+        """two idioms:  try: <abstract call> except K: raise E  (the outcome of the abstract call is an input);
+        try: return d[k] except KeyError: pass  (dictionary lookup with fall-through)"""
         if s.orelse or s.finalbody or len(s.handlers) != 1 or len(s.body) != 1:
             raise Unsupported("try statement outside the idiom")
         h = s.handlers[0]
         st = s.body[0]
+        if isinstance(st, ast.Return) and isinstance(st.value, ast.Subscript) and isinstance(h.type, ast.Name) \
+                and h.type.id == "KeyError" and h.name is None and len(h.body) == 1 and isinstance(h.body[0], ast.Pass) \
+                and not isinstance(st.value.slice, ast.Slice):
+            def fin_try(vs):
+                (d, td), (kc, tk) = vs
+                td = resolve(td)
+                if not isinstance(td, TDict):
+                    raise Unsupported("try around a subscript that is not a dictionary lookup")
+                dd, key = self.dict_probe(d, td, kc, tk)
+                self.raised += 1
+                v = self.fresh("v")
+                return "Py.tryExcept (Py.dictGet {} {}) Err.keyError (\n{}) (fun {} =>\n{})".format(
+                    dd, key, indent(nxt(env)), v, indent(self.finish_return(v, td.v)))
+            return self.exprs([st.value.value, st.value.slice], env, fin_try)
         if not (isinstance(st, ast.Expr) and isinstance(st.value, ast.Call) and isinstance(st.value.func, ast.Attribute)
                 and isinstance(h.type, ast.Name) and h.type.id in EXC and h.name is None):
             raise Unsupported("try statement outside the idiom")
